@@ -308,6 +308,22 @@ func codecAccepts(s []byte) map[string]bool {
 	return out
 }
 
+// judgeCodec: the codec functions accept s exactly when the reference grammar does.
+func (m *mergeRun) judgeCodec(s []byte) {
+	want := rj.Valid(s)
+	defer func() {
+		if r := recover(); r != nil {
+			m.viol("codec-panics", "codec-panics", fmt.Sprintf("codec function panics on %q: %v", trunc(string(s), 200), r), "codec", string(s), "")
+		}
+	}()
+	for fn, got := range codecAccepts(s) {
+		atomic.AddInt64(&nExec, 1)
+		if got != want {
+			m.viol("codec-language", "codec-language:"+fn, fmt.Sprintf("%s(%q): accepted=%v, RFC 8259 says %v", fn, trunc(string(s), 200), got, want), "codec:"+fn, string(s), "")
+		}
+	}
+}
+
 // runBytexA: DFS over strings viable in the reference PDA (plus each with one
 // killing byte). Codec functions must accept exactly the reference language;
 // accepted strings (with whitespace variants) go to the public entry points.
@@ -441,10 +457,34 @@ func stringShapes() []string {
 	return out
 }
 
+// longStringShapes: string bodies of every length 0..130 and around 256, 1024, 4096 (a scanner may skip ahead
+// in long literals), plain and with ONE special byte or escape - each of the 32 control bytes, DEL, a quote, a
+// backslash escape of every kind, bad UTF-8 - at the start, in the middle and at the end.
+func longStringShapes() []string {
+	var out []string
+	for _, n := range sweepSizes(130, 256, 1024, 4096) {
+		out = append(out, plainString(n, 'x'))
+	}
+	var specials []string
+	for c := 0; c < 0x20; c++ {
+		specials = append(specials, string([]byte{byte(c)}))
+	}
+	specials = append(specials, "\x7f", `"`, `\\`, `\"`, `\n`, `\/`, `\u0041`, `\u001f`, `\ud800`, `\ud83d\ude00`, `\x`, `\u12`, `\`, "\xff", "\xc3", "\u00e9", "\xe2\x80\xa8")
+	for _, n := range []int{3, 40, 62, 63, 64, 65, 66, 127, 128, 129, 200, 1024, 4096} {
+		base := plainString(n, 'x')
+		for _, sp := range specials {
+			for _, pos := range []int{0, n / 2, n - 1} {
+				out = append(out, base[:pos]+sp+base[pos+1:])
+			}
+		}
+	}
+	return out
+}
+
 // runStringShapes feeds every string shape - as a root string, an array element, a member value and
 // a member name - to every []byte parameter.
 func runStringShapes(ctx *core.Ctx, id string, f byteFlags) {
-	shapes := stringShapes()
+	shapes := append(stringShapes(), longStringShapes()...)
 	ctx.Count("string_shapes", int64(len(shapes)))
 	m0 := &mergeRun{id: id, legacy: f.legacy, ctx: ctx}
 	ctx.Parallel(len(shapes), func(w *core.Worker, i int) {
@@ -453,6 +493,126 @@ func runStringShapes(ctx *core.Ctx, id string, f byteFlags) {
 		q := `"` + shapes[i] + `"`
 		for _, t := range []string{q, "[" + q + "]", `{"k":` + q + `}`, "{" + q + ":1}"} {
 			m.judgeBytes(t, f)
+			if !f.legacy && f.reject {
+				m.judgeCodec([]byte(t))
+			}
+		}
+	})
+}
+
+// runBufferReuse: ONE caller-owned buffer per size, handed to an entry point three times - holding a
+// well-formed text, then (overwritten in place, same length, same address) an ill-formed one, then the
+// well-formed one again. A verdict remembered by buffer identity, length or a prefix shows as an accepted
+// ill-formed text or a rejected well-formed one. Sizes 2 .. 70000 bytes, every []byte parameter.
+func runBufferReuse(ctx *core.Ctx, id string) {
+	type entry struct {
+		name string
+		call func(buf []byte) (rejected bool, panicked string)
+		arr  bool // the parameter wants an array-rooted text (a patch)
+	}
+	other := []byte(`{"k":1}`)
+	okPatch := []byte(`[{"op":"add","path":"/zz","value":1}]`)
+	rOf := func(r impl.R) (bool, string) { return r.Err != "", r.Panic }
+	entries := []entry{
+		{"Apply(doc)", func(b []byte) (bool, string) {
+			o := impl.V5Apply(impl.Call{Doc: b, Patch: okPatch, Opt: defaultOpt})
+			return o.Err != "" || o.DecodeErr != "", o.Panic
+		}, false},
+		{"ApplyIndent(doc)", func(b []byte) (bool, string) {
+			o := impl.V5Apply(impl.Call{Doc: b, Patch: okPatch, Opt: defaultOpt, Indent: " "})
+			return o.Err != "" || o.DecodeErr != "", o.Panic
+		}, false},
+		{"DecodePatch(patch)", func(b []byte) (bool, string) {
+			d := impl.V5Decode(b)
+			return d.Err != "", d.Panic
+		}, true},
+		{"MergePatch(doc,_)", func(b []byte) (bool, string) { return rOf(impl.MergePatch(false, b, other)) }, false},
+		{"MergePatch(_,patch)", func(b []byte) (bool, string) { return rOf(impl.MergePatch(false, other, b)) }, false},
+		{"MergeMergePatches(p1,_)", func(b []byte) (bool, string) { return rOf(impl.MergeMergePatches(false, b, other)) }, false},
+		{"MergeMergePatches(_,p2)", func(b []byte) (bool, string) { return rOf(impl.MergeMergePatches(false, other, b)) }, false},
+		{"CreateMergePatch(a,_)", func(b []byte) (bool, string) { return rOf(impl.CreateMergePatch(false, b, other)) }, false},
+		{"CreateMergePatch(_,b)", func(b []byte) (bool, string) { return rOf(impl.CreateMergePatch(false, other, b)) }, false},
+		{"Equal(a,a)", func(b []byte) (bool, string) {
+			r := impl.Equal(false, b, b)
+			return !r.Bool, r.Panic
+		}, false},
+		{"Equal(a,copy)", func(b []byte) (bool, string) {
+			r := impl.Equal(false, b, append([]byte(nil), b...))
+			return !r.Bool, r.Panic
+		}, false},
+	}
+	sizes := []int{16, 63, 64, 65, 100, 1000, 4000, 4095, 4096, 4097, 5000, 20000, 65536, 70000}
+	type unit struct {
+		e    int
+		size int
+		dmg  int
+	}
+	var units []unit
+	for e := range entries {
+		for _, s := range sizes {
+			for d := 0; d < 4; d++ {
+				units = append(units, unit{e, s, d})
+			}
+		}
+	}
+	n := ctx.Counter("buffer_reuse_histories")
+	ctx.Parallel(len(units), func(w *core.Worker, i int) {
+		u := units[i]
+		e := entries[u.e]
+		var good string
+		if e.arr {
+			pad := u.size - len(`[{"op":"add","path":"/p","value":""}]`)
+			if pad < 0 {
+				return
+			}
+			good = `[{"op":"add","path":"/p","value":"` + strings.Repeat("v", pad) + `"}]`
+		} else {
+			good = `{"p":"` + strings.Repeat("v", u.size-len(`{"p":""}`)-1) + `"}` + "\n"
+		}
+		bad := []byte(good)
+		switch u.dmg {
+		case 0: // the closing bracket / trailing newline becomes a stray bracket
+			bad[len(bad)-1] = ']'
+			if e.arr {
+				bad[len(bad)-1] = '}'
+			}
+		case 1:
+			bad[len(bad)/2] = 0x1f // a raw control character in the long string
+		case 2:
+			bad[1] = ' ' // the first quote (or the first brace of the operation) disappears
+		case 3:
+			bad[len(bad)-3] = '\\' // the closing quote is escaped away
+		}
+		if rj.Valid(bad) {
+			panic("harness bug: damaged text is well-formed: " + trunc(string(bad), 80))
+		}
+		w.Tick(func() string {
+			return fmt.Sprintf("buffer reuse: %s, %d bytes, damage %d", e.name, u.size, u.dmg)
+		})
+		buf := []byte(good)
+		report := func(step, what string, p string) {
+			key := "buffer-reuse:" + what + ":" + e.name
+			if p != "" {
+				key = "panic:" + impl.PanicSite(p)
+			}
+			ctx.Violate(core.Violation{Property: id, Clause: "verdict-depends-on-history", Key: id + ":" + key, Engine: "bytex",
+				Detail: fmt.Sprintf("%s with ONE %d-byte buffer: call 1 well-formed text, call 2 the same buffer overwritten in place (damage %d: %q...%q), call 3 the well-formed text again; %s: %s %s", e.name, u.size, u.dmg, trunc(string(bad), 30), string(bad[len(bad)-8:]), step, what, p),
+				Case:   core.J(map[string]interface{}{"buffer_reuse": e.name, "size": u.size, "damage": u.dmg})})
+		}
+		atomic.AddInt64(n, 1)
+		atomic.AddInt64(&nExec, 3)
+		if rej, p := e.call(buf); rej || p != "" {
+			report("call 1", "rejects-well-formed", p)
+			return
+		}
+		copy(buf, bad)
+		if rej, p := e.call(buf); !rej || p != "" {
+			report("call 2", "accepts-ill-formed", p)
+			return
+		}
+		copy(buf, good)
+		if rej, p := e.call(buf); rej || p != "" {
+			report("call 3", "rejects-well-formed", p)
 		}
 	})
 }
